@@ -120,7 +120,7 @@ func init() {
 		QuickSec: 30, ThoroughSec: 480,
 		Assumptions: []string{
 			"generator restrictions (each because the result type cannot represent more): width/height <= 65535; bias numerator -127..127, denominator 1..127; GPS time rationals with denominators dividing numerators; printable ASCII strings without trailing blank; makes written in the spelling the result reports; at most one of CameraSerialNumber/BodySerialNumber; OwnerName only next to Artist; offsets/sub-seconds only next to their date",
-			"rationals are compared exactly when numerator and denominator are < 2^24, within 1 ulp otherwise; APEX-derived f-number within 0.01; GPS coordinates within 4 ulp (float64)",
+			"rationals are compared within 1 ulp of float32(n)/float32(d) (single- and double-rounded quotients are both faithful); APEX-derived f-number within 0.01; GPS coordinates within 4 ulp (float64)",
 			"fault-free device, pristine shared state (verif hooks), so a failure here is never a C04/C08 effect",
 		},
 	}
